@@ -304,7 +304,7 @@ func rowsrestRSSSeq(c *Ctx, ops []rowsrestRSSOp, expect string) {
 			Safe(func() string { rd.Reset(); return "" })
 			continue
 		}
-		row := rowFromBits(op.bs)
+		row := rowFromBitsVia(op.bs, int(c06Fnv([]byte(bitsStr(op.bs)))%uint64(c20Paths)), NewRng(uint64(len(op.bs))+7))
 		var trace []string
 		var hints map[gozxing.DecodeHintType]interface{}
 		if op.cb {
@@ -535,6 +535,43 @@ func rowsrestRSS(c *Ctx) {
 			rowsrestRSSLayers(c, r, pool[r.Intn(len(pool))].bs)
 		}
 	})
+	// every outside character value 0..2840 and every inside value 0..1596 once: data-character layer of the left pair
+	for vo := 0; vo <= 2840; vo++ {
+		if !c.Thorough && vo%2 != int(c.Rng.Intn(2)) && vo%97 != 0 {
+			continue
+		}
+		vi := (vo * 7) % 1597
+		v := int64(vo*1597+vi)*4537077 + int64(c.Rng.Intn(4537077))
+		w, _ := rowsrestSymbolWidthsF(v, -1, -1)
+		if w == nil {
+			c.Note("rowsrest-rss-gen:value-without-widths")
+			continue
+		}
+		k := c.Rng.Pick([]int{1, 2, 3})
+		px := append(append(c06White(4*k), c06Scale(c06Runs(w, false), k)...), c06White(4*k)...)
+		bits := bitsStr(px)
+		row := rowFromBits(px)
+		for _, outside := range []bool{true, false} {
+			ob := 0
+			want := vi
+			if outside {
+				ob, want = 1, vo
+			}
+			got := Safe(func() string {
+				d, e := rss.VerifRowsDecodeDataCharacter(row, false, outside)
+				if e != nil {
+					return rowsrestErr(e)
+				}
+				if d.GetValue() == want {
+					c.Note("rowsrest-rss-gen:character-value-read-back")
+				} else {
+					c.Note("rowsrest-rss-gen:character-value-NOT-read-back")
+				}
+				return fmt.Sprintf("ok %d %d", d.GetValue(), d.GetChecksumPortion())
+			})
+			c.Cmp("rowsrest-rss-layers", fmt.Sprintf("c06rows rss datachar 0 %d %s", ob, bits), got)
+		}
+	}
 	// the generator's symbols (widths by inverting the library's getRSSvalue) against the reference encoder written from the
 	// standard (Lean, Gzx/Ref/RSS14.lean): same 46 element widths for every value
 	for i := 0; i < c.Pick(400, 20000); i++ {
